@@ -43,6 +43,10 @@ RULE = (
     "configs for junos, 1..3 terms taken from the config (plus misses, '' and regex forms), delimiters ',', ';', '::', every syntax, "
     "-o raw_text / original (branch) / json, one or two files. diff: pairs of such configs x {diff, rollback} x every syntax, always "
     "including a hostname change (nxos / iosxr treat it as idempotent, ios does not). "
+    "input source stream (ipgrep / macgrep): the same texts piped through standard input with no FILE argument, and no FILE with a terminal as "
+    "standard input (the parser's 'file argument is required' error). namespace stream (CliApplication built from a hand-made argparse.Namespace, "
+    "ArgParser given its input string): ipgrep with exclude_networks on / off (an attribute no option sets) over all flag sets, text from a file "
+    "object or None; diff with a method outside {diff, rollback}; a command that is none of the six sub-commands (channel clins, model CliNs). "
     "non-trivial = the expected output is non-empty and differs from the unfiltered input (greps) or the API result is non-empty (sub-commands). "
     "Not generated: scoped IPv6 ('%eth0', rejected by IPv6Obj, accepted by the stdlib), "
     "invalid regexes, arguments beginning with '-', NUL / newline inside an argument, non-UTF-8 files."
@@ -63,7 +67,10 @@ LEVEL_TEXT = (
     "macgrep_line_filter, macWordMatches_iff, macgrep_modes); parent/child/branch/diff print exactly the API result for the arguments the code "
     "passes: CiscoConfParse(config=file, syntax=-s).find_parent_objects/find_child_objects/find_object_branches(args.split(delimiter)) file after "
     "file, Diff(read(f0), read(f1), syntax=-s).get_diff()/get_rollback() by -m (cli_is_api_parent, cli_is_api_child, cli_is_api_branch_raw, "
-    "cli_is_api_branch_original, sortLines_spec, cli_is_api_diff, diff_honours_syntax — F48, `diff` not passing -s, was repaired in /repo). "
+    "cli_is_api_branch_original, sortLines_spec, cli_is_api_diff, diff_honours_syntax — F48, `diff` not passing -s, was repaired in /repo); "
+    "the greps are the same whether the text comes from the FILE argument or from standard input, and end with the parser's error when there is "
+    "neither (grep_source_irrelevant, grep_needs_input); a Namespace carrying exclude_networks drops exactly the non-host hits and the filter "
+    "theorems (stated for every Opts) apply (ipgrepX_modes, netExcluded_spec); an unknown command is refused (other_command_rejected). "
     "The model is tied to cli_script.py by differential runs of the real ccp_script_entry on every check."
 )
 LEVEL_NOTE = (
@@ -90,14 +97,28 @@ SYNTAXES = ["ios", "nxos", "iosxr", "asa", "junos"]
 
 # ------------------------------------------------------------------------------------------
 # running the CLI
-def run_cli(argv):
-    """argv: list of arguments after `ccp`. Returns (answer, process stdout)."""
+class _Stdin(io.StringIO):
+    """standard input as the argument parser sees it: piped text, or a terminal nobody types into"""
+
+    def __init__(self, text, tty):
+        super().__init__(text)
+        self._tty = tty
+
+    def isatty(self):
+        return self._tty
+
+
+def run_cli(argv, stdin=None):
+    """argv: list of arguments after `ccp`. stdin: None (untouched), a str (piped text) or "tty" given as ("tty",).
+    Returns (answer, process stdout)."""
     quiet_ccp()
     from ciscoconfparse2.cli_script import ccp_script_entry
     cmd = "ccp_faked " + " ".join(shlex.quote(a) for a in argv)
     buf = io.StringIO()
-    saved_argv = sys.argv
+    saved_argv, saved_stdin = sys.argv, sys.stdin
     try:
+        if stdin is not None:
+            sys.stdin = _Stdin("", True) if stdin == ("tty",) else _Stdin(stdin, False)
         with contextlib.redirect_stdout(buf), contextlib.redirect_stderr(io.StringIO()):
             app = ccp_script_entry(cmd)
         ans = "ok|" + wire.enc_strs(app.stdout)
@@ -106,7 +127,25 @@ def run_cli(argv):
     except Exception as e:  # noqa: BLE001 - the class is the observation
         ans = "err:" + type(e).__name__
     finally:
-        sys.argv = saved_argv
+        sys.argv, sys.stdin = saved_argv, saved_stdin
+    return ans, buf.getvalue()
+
+
+def run_ns(**attrs):
+    """CliApplication built from a hand-made argparse.Namespace (what the argument parser would hand over, plus
+    attribute values no command line can produce). Returns (answer, process stdout)."""
+    quiet_ccp()
+    from argparse import Namespace
+    from ciscoconfparse2.cli_script import ArgParser, CliApplication
+    buf = io.StringIO()
+    try:
+        with contextlib.redirect_stdout(buf), contextlib.redirect_stderr(io.StringIO()):
+            app = CliApplication(ArgParser("ccp " + str(attrs.get("command"))), Namespace(**attrs))
+        ans = "ok|" + wire.enc_strs(app.stdout)
+    except SystemExit:
+        ans = "err:SystemExit"
+    except Exception as e:  # noqa: BLE001 - the class is the observation
+        ans = "err:" + type(e).__name__
     return ans, buf.getvalue()
 
 
@@ -144,8 +183,18 @@ def ip_argv(case, path):
             argv.append(opt)
     if case["delim"] is not None:
         argv += ["-w", case["delim"]]
-    argv.append(path)
+    if path is not None:
+        argv.append(path)
     return argv
+
+
+def ip_namespace(case, text):
+    """the Namespace `ccp ipgrep ...` hands over (word_delimiter default included), plus exclude_networks"""
+    fl = case["flags"]
+    return dict(command="ipgrep", ipgrep_file=None if text is None else io.StringIO(text), subnets=case["subnets"],
+                ipv4="4" in fl, ipv6="6" in fl, word_delimiter=case["delim"] if case["delim"] is not None else r"\s+",
+                show_cidr="c" in fl, show_networks="n" in fl, exclude_hosts="H" in fl, line="l" in fl, unique="u" in fl,
+                exclude_networks=bool(case.get("xn")))
 
 
 def _obj_pair(cls, w):
@@ -187,16 +236,27 @@ def ip_rows(case, text):
 
 
 def ip_impl(case):
+    source = case.get("source", "file")
     with scratch({"in.txt": case["text"]}) as paths:
         text = read_back(paths["in.txt"])
-        ans, out = run_cli(ip_argv(case, paths["in.txt"]))
+        if case.get("ns"):
+            ans, out = run_ns(**ip_namespace(case, None if source == "tty" else text))
+        elif source == "file":
+            ans, out = run_cli(ip_argv(case, paths["in.txt"]))
+        elif source == "stdin":
+            ans, out = run_cli(ip_argv(case, None), stdin=text)
+        else:
+            ans, out = run_cli(ip_argv(case, None), stdin=("tty",))
     splits, addrs, txts, both = ip_rows(case, text)
     case["_proc"] = out
     case["_both"] = both
     case["_read"] = text
-    req = wire.req("cli", "ipgrep", case["flags"],
-                   "-" if case["subnets"] is None else wire.enc_str(case["subnets"]),
-                   wire.enc_str(text), splits, addrs, txts)
+    sub = "-" if case["subnets"] is None else wire.enc_str(case["subnets"])
+    if source == "file" and not case.get("ns"):
+        req = wire.req("cli", "ipgrep", case["flags"], sub, wire.enc_str(text), splits, addrs, txts)
+    else:
+        req = wire.req("clins", "ipgrep", {"file": "f", "stdin": "s", "tty": "t"}[source], "1" if case.get("xn") else "0",
+                       case["flags"], sub, wire.enc_str(text), splits, addrs, txts)
     return ans, req
 
 
@@ -218,6 +278,9 @@ def ref_ipgrep(case, text):
     """expected CliApplication.stdout, or an error family"""
     fl = case["flags"]
     sub = case["subnets"]
+    if case.get("source") == "tty":
+        return "err:SystemExit"          # nothing to read: the argument parser's error, whatever else is given
+    xn = bool(case.get("xn"))
     if sub is None:
         if "4" in fl and "6" in fl:
             sub = "0.0.0.0/0,::/0"
@@ -246,7 +309,7 @@ def ref_ipgrep(case, text):
         if not any(n.version == i.version and i.network.subnet_of(n) for n in nets):
             return None
         host = i.network.prefixlen == i.max_prefixlen or (not show_net and i.ip != i.network.network_address)
-        excluded = "H" in fl and host
+        excluded = ("H" in fl and host) or (xn and i.network.prefixlen != i.max_prefixlen)   # exclude_networks: all but /32, /128
         if show_net:
             r = str(i.network)
         elif show_cidr:
@@ -323,7 +386,8 @@ def mac_argv(case, path):
         argv.append("--unique")
     if case["delim"] is not None:
         argv += ["-w", case["delim"]]
-    argv.append(path)
+    if path is not None:
+        argv.append(path)
     return argv
 
 
@@ -372,19 +436,29 @@ def mac_rows(case, text):
 
 
 def mac_impl(case):
+    source = case.get("source", "file")
     with scratch({"in.txt": case["text"]}) as paths:
         text = read_back(paths["in.txt"])
-        ans, out = run_cli(mac_argv(case, paths["in.txt"]))
+        if source == "file":
+            ans, out = run_cli(mac_argv(case, paths["in.txt"]))
+        elif source == "stdin":
+            ans, out = run_cli(mac_argv(case, None), stdin=text)
+        else:
+            ans, out = run_cli(mac_argv(case, None), stdin=("tty",))
     splits, rxs = mac_rows(case, text)
     case["_proc"] = out
     case["_read"] = text
-    req = wire.req("cli", "macgrep", case["flags"],
-                   wire.enc_str(case["regex"] if case["regex"] is not None else "."),
-                   wire.enc_str(text), splits, rxs)
+    rgx = wire.enc_str(case["regex"] if case["regex"] is not None else ".")
+    if source == "file":
+        req = wire.req("cli", "macgrep", case["flags"], rgx, wire.enc_str(text), splits, rxs)
+    else:
+        req = wire.req("clins", "macgrep", {"stdin": "s", "tty": "t"}[source], case["flags"], rgx, wire.enc_str(text), splits, rxs)
     return ans, req
 
 
 def ref_macgrep(case, text):
+    if case.get("source") == "tty":
+        return "err:SystemExit"
     delim = case["delim"] if case["delim"] is not None else r"\s+"
     regexes = (case["regex"] if case["regex"] is not None else ".").split(",")
 
@@ -550,7 +624,12 @@ def _diff_api(old, new, syn):
 def diff_impl(case):
     with scratch({"f0.cfg": case["old"], "f1.cfg": case["new"]}) as paths:
         old, new = read_back(paths["f0.cfg"]), read_back(paths["f1.cfg"])
-        ans, out = run_cli(diff_argv(case, paths))
+        if case.get("ns"):       # a hand-made Namespace: any `method` string
+            ans, out = run_ns(command="diff", file=[paths["f0.cfg"], paths["f1.cfg"]],
+                              method=case["method"] if case["method"] is not None else "diff",
+                              syntax=case["syntax"] if case["syntax"] is not None else "ios")
+        else:
+            ans, out = run_cli(diff_argv(case, paths))
     syn_req = case["syntax"] if case["syntax"] is not None else "ios"
     rows = [f"R|{wire.enc_str('f0.cfg')}={wire.enc_str(old)}", f"R|{wire.enc_str('f1.cfg')}={wire.enc_str(new)}"]
     for syn in dict.fromkeys([syn_req, "ios"]):
@@ -572,6 +651,8 @@ def diff_oracle(case, ans):
     old, new = case["_read"]
     syn = case["syntax"] if case["syntax"] is not None else "ios"
     method = case["method"] if case["method"] is not None else "diff"
+    if method not in ("diff", "rollback"):
+        return [] if ans.startswith("err:") else [f"diff method {method!r} is neither diff nor rollback, but lines were printed"]
     try:
         d, r = _diff_api(old, new, syn)
         want = d if method == "diff" else r
@@ -594,9 +675,24 @@ def known_id(case, failure):
 
 
 # ------------------------------------------------------------------------------------------
+# a Namespace naming no sub-command
+def command_impl(case):
+    ans, out = run_ns(command=case["name"])
+    case["_proc"] = out
+    return ans, wire.req("clins", "command", wire.enc_str(case["name"]))
+
+
+def command_oracle(case, ans):
+    known = ("parent", "child", "branch", "diff", "ipgrep", "macgrep")
+    if case["name"] not in known and not ans.startswith("err:"):
+        return [f"command {case['name']!r} is no sub-command, but the application ran: {ans[:40]}"]
+    return []
+
+
+# ------------------------------------------------------------------------------------------
 # dispatch
-IMPL = {"ipgrep": ip_impl, "macgrep": mac_impl, "find": find_impl, "diff": diff_impl}
-ORACLE = {"ipgrep": ip_oracle, "macgrep": mac_oracle, "find": find_oracle, "diff": diff_oracle}
+IMPL = {"ipgrep": ip_impl, "macgrep": mac_impl, "find": find_impl, "diff": diff_impl, "command": command_impl}
+ORACLE = {"ipgrep": ip_oracle, "macgrep": mac_oracle, "find": find_oracle, "diff": diff_oracle, "command": command_oracle}
 
 
 def impl(case):
@@ -966,8 +1062,43 @@ def cases(rng, tier):
             yield {"kind": "ipgrep", "text": text, "delim": None, **m}
         yield {"kind": "diff", "old": "hostname A\n", "new": "hostname B\n", "method": "rollback", "syntax": "nxos"}
         yield {"kind": "diff", "old": "hostname A\n", "new": "hostname B\n", "method": None, "syntax": None}
+        # where the text comes from / Namespace-level attributes
+        for src in ("stdin", "tty"):
+            yield {"kind": "ipgrep", "text": text, "delim": None, "subnets": "10.0.0.0/24,fd01::/16", "flags": "", "source": src}
+            yield {"kind": "ipgrep", "text": text, "delim": None, "subnets": None, "flags": "", "source": src}
+            yield {"kind": "macgrep", "text": "dead.beef.0001 x 00:11:22:33:44:55\n", "delim": None, "regex": None, "flags": "", "source": src}
+        for fl in IP_FLAG_SETS:
+            yield {"kind": "ipgrep", "text": text, "delim": None, "subnets": "10.0.0.0/24,10.0.0.0/8,fd01::/16", "flags": fl,
+                   "ns": True, "xn": True}
+        for nm in ("frobnicate", "", "Parent", "ipgrep2"):
+            yield {"kind": "command", "name": nm}
+        yield {"kind": "diff", "old": "hostname A\n", "new": "hostname B\n", "method": "undo", "syntax": "ios", "ns": True}
     for _ in range(700 * n):
         yield gen_ipgrep(rng)
+    for i in range(110 * n):
+        c = gen_ipgrep(rng)
+        r = i % 11
+        if r < 4:
+            c["source"] = "stdin"
+        elif r < 5:
+            c["source"] = "tty"
+        else:                      # a hand-made Namespace: exclude_networks on (mostly) or off, text from a file object or None
+            c["ns"], c["xn"] = True, r < 10
+            if rng.random() < 0.1:
+                c["source"] = "tty"
+        yield c
+    for i in range(40 * n):
+        c = gen_macgrep(rng)
+        c["source"] = "stdin" if i % 4 else "tty"
+        yield c
+    for i in range(12 * n):
+        c = gen_diff(rng)
+        c["ns"] = True
+        if i % 2:
+            c["method"] = rng.choice(["undo", "", "Diff", "rollback ", "diff,rollback"])
+        yield c
+    for _ in range(4 * n):
+        yield {"kind": "command", "name": rng.choice(["frobnicate", "grep", "IPGREP", "parents", "diff "])}
     for _ in range(300 * n):
         yield gen_macgrep(rng)
     for _ in range(260 * n):
@@ -994,6 +1125,8 @@ def neighbours(case, rng):
         elif c["kind"] == "find":
             c["syntax"] = rng.choice(SYNTAXES)
             c["cmd"] = rng.choice(["parent", "child", "branch"])
+        elif c["kind"] == "command":
+            c["name"] = rng.choice(["frobnicate", "x", "macgrep "])
         else:
             c["syntax"] = rng.choice(SYNTAXES)
             c["method"] = rng.choice(["diff", "rollback"])
@@ -1012,6 +1145,8 @@ def nontrivial(case):
         return len(case["text"]) > 12
     if k == "find":
         return len(case["terms"]) >= 1 and any(c.strip() for c in case["configs"])
+    if k == "command":
+        return False
     return case["old"] != case["new"]
 
 
@@ -1025,6 +1160,14 @@ def buckets(case, ans):
     got = _lines(ans)
     if got is not None:
         out.append(f"{k}:printed:" + ("0" if not got else "1-3" if len(got) <= 3 else "4+"))
+    if k in ("ipgrep", "macgrep"):
+        out.append(f"{k}:source:" + case.get("source", "file") + ("/namespace" if case.get("ns") else ""))
+    if case.get("xn"):
+        out.append("ipgrep:exclude_networks")
+    if k == "command":
+        return out
+    if k == "diff" and case.get("ns"):
+        out.append("diff:namespace")
     if k == "ipgrep":
         out.append("ipgrep:flags:" + (case["flags"] or "-"))
         out.append("ipgrep:delim:" + str(case["delim"]))
